@@ -17,6 +17,12 @@ def mk(case):
     N, m = case["N"], case["m"]
     lo = case.get("lower") or [-0.5] * N
     up = case.get("upper") or [0.5] * N
+    if case.get("via_setbounds") == "near":
+        # history: re-bound to a box that differs from the previous one by less than typical comparison tolerances
+        ev = Evolvent(np.array([l - 5e-4 for l in lo], dtype=float), np.array([u - 5e-4 for u in up], dtype=float), N, m)
+        ev.GetImage(0.25)
+        ev.SetBounds(np.array(lo, dtype=float), np.array(up, dtype=float))
+        return ev, N, m, lo, up
     if case.get("via_setbounds"):
         # history: constructed for another box, then re-bound (the property holds for the configured bounds)
         # (the first box is given the way the shipped tests write bounds: plain integers)
@@ -24,6 +30,9 @@ def mk(case):
         ev.GetImage(0.25)
         ev.SetBounds(np.array(lo, dtype=float), np.array(up, dtype=float))
         return ev, N, m, lo, up
+    if case.get("dtype"):
+        # bounds handed over as arrays of another float type (float32 arrays come from ML pipelines)
+        return Evolvent(np.array(lo, dtype=case["dtype"]), np.array(up, dtype=case["dtype"]), N, m), N, m, lo, up
     return Evolvent(np.array(lo, dtype=float), np.array(up, dtype=float), N, m), N, m, lo, up
 
 
